@@ -1,5 +1,7 @@
 package jen
 
+import "bytes"
+
 // C11: numeric and boolean literals preserve value and type.
 
 func litForm(v interface{}) *Statement {
@@ -126,4 +128,23 @@ func H_C11_complex64() {
 	verifAssert(err == nil, "no error")
 	verifObserve("out", out)
 	verifAssert(specComplex64ConstIs(out, v), "complex64 constant")
+}
+
+// a numeric literal's text does not depend on what the same File rendered before
+func H_C11_in_context() {
+	f := NewFile("p")
+	first := c12Literal(nondetChoice("first", 6), "first_")
+	b0 := &bytes.Buffer{}
+	verifAssert(first.render(f, b0, nil) == nil, "no error")
+	k := nondetChoice("target", 3)
+	if k == 2 {
+		k = 5
+	}
+	target := c12Literal(k, "")
+	b1 := &bytes.Buffer{}
+	verifAssert(target.render(f, b1, nil) == nil, "no error")
+	fresh, err := renderOne(target)
+	verifAssert(err == nil, "no error")
+	verifObserve("out", b1.String())
+	verifAssert(b1.String() == fresh, "a literal renders the same whatever the File rendered before")
 }
